@@ -204,6 +204,22 @@ theorem wpD_withQ {env : Env} {Q : FS → Prop} {Post : α → FS → Prop} {p :
   | done a => exact ⟨h.1, h.1, h.2⟩
   | sys c k ih => exact ⟨h.1, h.2.1, fun fs' r hs => ih r (h.2.2 fs' r hs)⟩
 
+/-- Two weakest preconditions combine. -/
+theorem wpD_and {env : Env} {Q1 Q2 : FS → Prop} {P1 P2 : α → FS → Prop} {p : Prog α} {fs : FS}
+    (h1 : wpD env Q1 P1 p fs) (h2 : wpD env Q2 P2 p fs) :
+    wpD env (fun s => Q1 s ∧ Q2 s) (fun a s => P1 a s ∧ P2 a s) p fs := by
+  induction p generalizing fs with
+  | done a => exact ⟨⟨h1.1, h2.1⟩, h1.2, h2.2⟩
+  | sys c k ih =>
+    exact ⟨⟨h1.1, h2.1⟩, fun t => ⟨h1.2.1 t, h2.2.1 t⟩,
+      fun fs' r hs => ih r (h1.2.2 fs' r hs) (h2.2.2 fs' r hs)⟩
+
+theorem wpD_weakenQ {env : Env} {Q Q' : FS → Prop} {Post : α → FS → Prop} {p : Prog α} {fs : FS}
+    (hq : ∀ s, Q s → Q' s) (h : wpD env Q Post p fs) : wpD env Q' Post p fs := by
+  induction p generalizing fs with
+  | done a => exact ⟨hq _ h.1, h.2⟩
+  | sys c k ih => exact ⟨hq _ h.1, fun t => hq _ (h.2.1 t), fun fs' r hs => ih r (h.2.2 fs' r hs)⟩
+
 theorem wpD_bind {env : Env} {Q : FS → Prop} {Post : β → FS → Prop} {p : Prog α}
     {f : α → Prog β} {fs : FS}
     (h : wpD env Q (fun a fs' => wpD env Q Post (f a) fs') p fs) :
